@@ -273,7 +273,7 @@ def harness_hash():
     return _hh
 
 
-def prune_cache(keep=3):
+def prune_cache(keep=10):
     if not os.path.isdir(CACHE):
         return
     ds = sorted((os.path.join(CACHE, d) for d in os.listdir(CACHE)), key=os.path.getmtime)
